@@ -158,3 +158,15 @@ package gossip
 //@   ensures[key] gPubKey == "endpoint:" + endpointID
 //@   ensures[publish-count] localCount(s.clusterState, endpointID) > 0 ==> gPubUpsert && !gPubDelete && gPubVal == itoa(localCount(s.clusterState, endpointID))
 //@   ensures[withdraw-at-zero] localCount(s.clusterState, endpointID) <= 0 ==> gPubDelete && !gPubUpsert
+
+// ---- shutdown order (C18): steps recorded for server.(*Server).Shutdown ---------------
+//@ contract (*Gossip).Leave
+//@   trusted wrapper of pkg/gossip.(*Gossip).Leave (proved there: the left marker is written before any peer is told)
+//@   modifies-all $gShutStep $tLeave
+//@   ghost-set gShutStep = old(gShutStep) + 1
+//@   ghost-set tLeave = old(gShutStep) + 1
+//@ contract (*Gossip).Close
+//@   trusted closes the gossip listeners
+//@   modifies-all $gShutStep $tGossipClose
+//@   ghost-set gShutStep = old(gShutStep) + 1
+//@   ghost-set tGossipClose = old(gShutStep) + 1
